@@ -88,6 +88,61 @@ def send_queue_packets(d1: bytes, d2: bytes, script: List[int], psize: int) -> b
     return fin(wire == want)
 
 
+class _StalledEvent:
+    """threading.Event of a block whose sender makes no progress: wait() without timeout blocks (Park), with a timeout it expires"""
+
+    def __init__(self):
+        self.flag = False
+
+    def set(self):
+        self.flag = True
+
+    def is_set(self):
+        return self.flag
+
+    def wait(self, timeout=None):
+        if self.flag:
+            return True
+        if timeout is None:
+            raise _Blocked()
+        return False
+
+
+class _Blocked(Exception):
+    pass
+
+
+def stalled_sender(data: bytes, fails_later: bool) -> bool:
+    """
+    pre: 1 <= len(data) <= 4
+    post: _
+    """
+    # the protocol thread does not get to the block (peer not draining): whatever send_message does - wait on, give up - it must
+    # not report success for bytes that never reached the socket
+    import secsgem.common.block_send_info as bsi
+    from secsgem.common.protocol import Protocol
+    from rigs import hsms as hrig
+    p, c, delivered = hrig.make_protocol()
+    p._thread.trigger_receiver = lambda: None              # sender stalled
+    real_init = bsi.BlockSendInfo.__init__
+
+    def init(self, d):
+        real_init(self, d)
+        self._result_trigger = _StalledEvent()
+    bsi.BlockSendInfo.__init__ = init
+    try:
+        from secsgem.hsms.message import HsmsMessage
+        from secsgem.hsms.header import HsmsHeader, HsmsSType
+        msg = HsmsMessage(HsmsHeader(1, 0, 1, 1, False, 0, HsmsSType.DATA_MESSAGE), data)
+        try:
+            ok = p.send_message(msg)
+        except _Blocked:
+            return fin(True)                                 # still waiting for the transport: no success reported
+    finally:
+        bsi.BlockSendInfo.__init__ = real_init
+    return fin(ok is not True and c.wire == [])
+
+
 OBLIGATIONS = [
     dict(name="send_data_contract", fn="send_data_contract", timeout=300,
          functions=["secsgem.common.tcp_connection.TcpConnection.send_data"],
@@ -103,4 +158,8 @@ OBLIGATIONS = [
          outside="longer blocks / scripts",
          findings=[dict(id="C10-partial-send", pred="any(0 < s < 4 for s in script)")]),
 ]
+OBLIGATIONS.append(
+    dict(name="stalled_sender", fn="stalled_sender", timeout=120,
+         functions=["Protocol.send_message", "BlockSendInfo.wait/resolve"],
+         bounds="a block the sender never gets to (event never set): send_message blocks or reports failure, never success"))
 ASSUMPTIONS = ["socket.send contract as in rigs/sock.py; select() reports writable whenever asked"]
